@@ -304,6 +304,7 @@ func C12(c *core.Ctx) {
 		c12sched(c)
 		c12batches(c)
 		c12sameObject(c)
+		c12counterWrap(c)
 		c12broker(c)
 		c12brokerFlow(c)
 		return
@@ -372,6 +373,7 @@ func C12(c *core.Ctx) {
 	c12sched(c)
 	c12batches(c)
 	c12sameObject(c)
+	c12counterWrap(c)
 	c12broker(c)
 	c12brokerFlow(c)
 }
